@@ -122,6 +122,8 @@ func main() {
 			cfg := drv.SmallCfg{Seed: *seed*1000 + i, Ops: *steps, Crash: *crashMode, Loss: *loss, Avoid: avoidSet(*avoid), DiskSz: *disk}
 			if cmd == "kvs" && *sconc == -1 { // directed disk-gate schedules
 				seg = drv.RunKvsGates(cfg.Seed, t, seg)
+			} else if cmd == "simple" && *sconc == -1 {
+				seg = drv.RunSimpleGates(cfg.Seed, t, seg)
 			} else if *sconc > 1 {
 				cc := drv.SmallConcCfg{Seed: cfg.Seed, Clients: *sconc, OpsPer: *steps, Crash: *crashMode, Loss: *loss, DiskSz: *disk}
 				if cmd == "simple" {
